@@ -29,6 +29,10 @@ def c02_check(sim, k, totals=None):
         a = type(s).__name__
         if a == "ChargingStation":
             charging[(s.station_id, s.charger_id)] += 1
+            st = sim.stations.get(s.station_id)
+            if st is not None and s.charger_id not in st.state:
+                # installed = free = 0 for a plug type the station does not have: nobody can be charging on it
+                out.append(V("C02", "charging_on_absent_plug", k, f"vehicle {v.id} is charging at station {s.station_id} on plug type {s.charger_id}, which is not installed there"))
         elif a == "ChargeQueueing":
             queued[(s.station_id, s.charger_id)] += 1
         elif a == "ChargingBase":
@@ -36,6 +40,9 @@ def c02_check(sim, k, totals=None):
             b = sim.bases.get(s.base_id)
             if b is not None and b.station_id:
                 charging[(b.station_id, s.charger_id)] += 1
+                st = sim.stations.get(b.station_id)
+                if st is not None and s.charger_id not in st.state:
+                    out.append(V("C02", "charging_on_absent_plug", k, f"vehicle {v.id} is charging at base {s.base_id} through station {b.station_id} on plug type {s.charger_id}, which is not installed there"))
         elif a == "ReserveBase":
             parked[s.base_id] += 1
     for sid, st in sim.stations.items():
